@@ -23,7 +23,7 @@ git apply "$D/patch.diff" || { echo "CONFIRM $D: patch does not apply"; exit 1; 
 suite=$(cargo test --offline 2>&1 | grep -E "^test result" | head -1)
 echo "suite with patch: $suite"
 [ -f "$D/demo.diff" ] && { git apply "$D/demo.diff" || { echo "demo.diff does not apply"; exit 1; }; }
-[ -f "$D/demo.sh" ] && mkdir -p "$W/SEED/1" && cp "$D"/* "$W/SEED/1/" && cargo build --offline >/dev/null 2>&1
+[ -f "$D/demo.sh" ] && mkdir -p "$W/SEED/1" "$W/SEED/2" && cp "$D"/* "$W/SEED/1/" && cp "$D"/* "$W/SEED/2/" && cargo build --offline >/dev/null 2>&1
 ( eval "$demo_cmd" ) > /tmp/seedwork/confirm_with.log 2>&1; with=$?
 git apply -R "$D/patch.diff" || { echo "cannot revert patch"; exit 1; }
 [ -f "$D/demo.sh" ] && cargo build --offline >/dev/null 2>&1
